@@ -442,6 +442,28 @@ impl Gen for Handle {
     fn gen(rng: &mut Rng, _d: u32) -> Handle { Handle(if rng.chance(1, 4) { 0 } else { rng.below(200) as u32 }) }
 }
 
+/// A user-defined *unsized* type with its own `value_size` (rounded up to an allocator block, i.e. not
+/// `size_of_val`), measured through `Box<dyn Blob>` and containers of it: the trait's default
+/// `value_size_sum_*` helpers must go through `value_size`.
+pub trait Blob { fn payload(&self) -> usize; }
+pub struct Blob8(pub [u8; 8]);
+pub struct Blob40(pub [u8; 40]);
+impl Blob for Blob8 { fn payload(&self) -> usize { self.0.len() } }
+impl Blob for Blob40 { fn payload(&self) -> usize { self.0.len() } }
+impl lru_mem::ValueSize for dyn Blob {
+    fn value_size(&self) -> usize { (std::mem::size_of_val(self) + 31) / 32 * 32 + 16 }
+}
+impl lru_mem::HeapSize for dyn Blob {
+    fn heap_size(&self) -> usize { 0 }
+}
+impl Sample for dyn Blob {
+    fn ty() -> String { "userdyn".to_owned() }
+    fn val(&self) -> String { format!("bytes {}", lru_mem::ValueSize::value_size(self)) }
+}
+impl Gen for Box<dyn Blob> {
+    fn gen(rng: &mut Rng, _d: u32) -> Box<dyn Blob> { if rng.chance(1, 2) { Box::new(Blob8([1; 8])) } else { Box::new(Blob40([2; 40])) } }
+}
+
 pub struct MemOut {
     pub ops: std::io::BufWriter<std::fs::File>,
     pub obs: std::io::BufWriter<std::fs::File>,
@@ -483,7 +505,7 @@ pub fn run_type<T: Gen + MemSize + 'static>(out: &mut MemOut, rng: &mut Rng, rou
         }
         // what a user type reports is its author's business, not the allocator's (C09 is about std's owned buffers)
         let hashy = ty.contains("hset") || ty.contains("hmap");
-        let user = ty.contains("user ");
+        let user = ty.contains("user");
         let borrowed = ty.starts_with("ref ");
         if !hashy && !borrowed && !user && heap as isize != held {
             out.failures += 1;
@@ -596,6 +618,9 @@ pub fn run_all(out: &mut MemOut, rng: &mut Rng, rounds: usize) {
         Handle, Vec<Handle>, [Handle; 3], Box<[Handle]>, (Handle, u8), Option<Handle>, Vec<Option<Handle>>, HashMap<u8, Handle>,
         Vec<(Box<Handle>, u8)>, Box<Handle>, Vec<[Handle; 2]>, BinaryHeap<Handle>, HashSet<Handle>, Wrapping<Handle>, Vec<Wrapping<Handle>>,
         Range<Handle>, Vec<Result<Handle, String>>, Mutex<Vec<Handle>>,
+        // a user-defined unsized type (own value_size, default helpers) behind Box, alone and in containers
+        Box<dyn Blob>, Vec<Box<dyn Blob>>, [Box<dyn Blob>; 2], Box<[Box<dyn Blob>]>, Vec<(Box<dyn Blob>, u8)>, Option<Box<dyn Blob>>,
+        Vec<Option<Box<dyn Blob>>>,
     );
 }
 
